@@ -1048,7 +1048,7 @@ ErrorCode RobustPath::spine_intersection(const SubPath &sub0, const SubPath &sub
     double step = 1;
     uint64_t evals = max_evals;
     const double step_min = 1.0 / (10.0 * max_evals);
-    while (evals-- > 0 || fabs(step * du0) > step_min || fabs(step * du1) > step_min) {
+    while ((evals > 0 && evals-- > 0) || fabs(step * du0) > step_min || fabs(step * du1) > step_min) {
         double new_u0 = u0 + step * du0;
         double new_u1 = u1 + step * du1;
         p0 = spine_position(sub0, new_u0);
@@ -1103,7 +1103,7 @@ ErrorCode RobustPath::center_intersection(const SubPath &sub0, const Interpolati
     double step = 1;
     uint64_t evals = max_evals;
     const double step_min = 1.0 / (10.0 * max_evals);
-    while (evals-- > 0 || fabs(step * du0) > step_min || fabs(step * du1) > step_min) {
+    while ((evals > 0 && evals-- > 0) || fabs(step * du0) > step_min || fabs(step * du1) > step_min) {
         double new_u0 = u0 + step * du0;
         double new_u1 = u1 + step * du1;
         p0 = center_position(sub0, offset0, new_u0);
@@ -1159,7 +1159,7 @@ ErrorCode RobustPath::left_intersection(const SubPath &sub0, const Interpolation
     double step = 1;
     uint64_t evals = max_evals;
     const double step_min = 1.0 / (10.0 * max_evals);
-    while (evals-- > 0 || fabs(step * du0) > step_min || fabs(step * du1) > step_min) {
+    while ((evals > 0 && evals-- > 0) || fabs(step * du0) > step_min || fabs(step * du1) > step_min) {
         double new_u0 = u0 + step * du0;
         double new_u1 = u1 + step * du1;
         p0 = left_position(sub0, offset0, width0, new_u0);
@@ -1215,7 +1215,7 @@ ErrorCode RobustPath::right_intersection(const SubPath &sub0, const Interpolatio
     double step = 1;
     uint64_t evals = max_evals;
     const double step_min = 1.0 / (10.0 * max_evals);
-    while (evals-- > 0 || fabs(step * du0) > step_min || fabs(step * du1) > step_min) {
+    while ((evals > 0 && evals-- > 0) || fabs(step * du0) > step_min || fabs(step * du1) > step_min) {
         double new_u0 = u0 + step * du0;
         double new_u1 = u1 + step * du1;
         p0 = right_position(sub0, offset0, width0, new_u0);
